@@ -30,6 +30,27 @@ Theorem C18_each_single_violation_rejected : forall methods settings s,
 Proof. exact each_single_violation_rejected. Qed.
 Print Assumptions C18_each_single_violation_rejected.
 
+(* under selective GAPIC generation (any allow-list, either mode) the validation sees a sub-table of the proto's
+   methods, so a selector naming NO method of the proto is still rejected and reported *)
+Theorem C18_unknown_selector_rejected_selective : forall allow internal methods settings s,
+  methods_wf methods -> In s settings -> (forall m, In m methods -> m_selector m <> s_selector s) ->
+  let table := visible_methods allow internal methods in
+  enforce table settings = Crashed \/
+  exists errs e, enforce table settings = Rejected errs /\ assoc (s_selector s) errs = Some e.
+Proof. exact unknown_selector_rejected_selective. Qed.
+Print Assumptions C18_unknown_selector_rejected_selective.
+
+(* the unchanged code on an existing method omitted by the allow-list: "not found" when omitted methods are pruned,
+   validated as usual when they are kept as internal; a misspelt selector is rejected in both modes *)
+Example C18_selective_nontrivial :
+  enforce (visible_methods ["pkg.Lib.GetBook"] false ex_methods) [mkSetting "pkg.Lib.CreateBook" ["request_id"]]
+    = Rejected [("pkg.Lib.CreateBook", SMethodNotFound)] /\
+  enforce (visible_methods ["pkg.Lib.GetBook"] true ex_methods) [mkSetting "pkg.Lib.CreateBook" ["request_id"]] = Accepted /\
+  enforce (visible_methods ["pkg.Lib.GetBook"] true ex_methods) [mkSetting "pkg.Lib.CreateBooks" ["request_id"]]
+    = Rejected [("pkg.Lib.CreateBooks", SMethodNotFound)].
+Proof. exact pruned_method_not_found. Qed.
+Print Assumptions C18_selective_nontrivial.
+
 (* a selector that occurs twice is reported as a duplicate, whatever else the list contains *)
 Theorem C18_duplicates_rejected : forall methods l1 s1 l2 s2 l3,
   s_selector s1 = s_selector s2 ->
